@@ -337,3 +337,133 @@ theorem carriesRange_of_carriesChild (lo ln : LNode) (preO postO preN postN : Li
   exact h
 
 end Mimium.LiveCoding
+
+namespace Mimium.LiveCoding
+open Mimium.Core Mimium.Cells Mimium.StateTree Mimium.FlatTree Mimium.Publish Mimium.HotSwap Mimium.Migration
+
+/-! ### a child that receives no word starts from zero -/
+
+theorem lookup_empty (s : Nat) : lookupCell SNode.empty.cells s = none := rfl
+
+theorem childAt_empty' (s : Nat) : SNode.empty.childAt s = SNode.empty := by
+  simp [SNode.childAt, lookup_empty]
+
+mutual
+/-- the never-evaluated node serialises to zeros -/
+theorem serCell_empty : ∀ (c : LCell), serCell c SNode.empty = List.replicate c.size 0
+  | .mem s => by simp [serCell, SNode.memAt, lookup_empty, LCell.size]
+  | .delay s n => by
+    simp only [serCell, SNode.ringAt, lookup_empty, Ring.zero, Ring.words, LCell.size, delayExtra_eq]
+    rw [show 2 + n = n + 1 + 1 by omega]
+    simp [List.replicate_succ]
+  | .child s self cells => by
+    simp only [serCell, childAt_empty', LCell.size, serCells_empty cells]
+    cases self with
+    | none => simp [selfWords, selfSize]
+    | some sh => simp [selfWords, selfSize, SNode.empty, SNode.selfv, List.replicate_append_replicate]
+theorem serCells_empty : ∀ (cs : List LCell), serCells cs SNode.empty = List.replicate (sizeCells cs) 0
+  | [] => by simp [serCells, sizeCells]
+  | c :: cs => by
+    simp only [serCells, sizeCells, serCell_empty c, serCells_empty cs, List.replicate_append_replicate]
+end
+
+theorem serialize_empty (lay : LNode) : serialize lay SNode.empty = List.replicate lay.size 0 := by
+  simp only [serialize, serCells_empty, LNode.size]
+  cases lay.self with
+  | none => simp [selfWords, selfSize]
+  | some sh => simp [selfWords, selfSize, SNode.empty, SNode.selfv, List.replicate_append_replicate]
+
+mutual
+theorem confS_empty : ∀ (c : LCell), LayOk c → ConfS c SNode.empty
+  | .mem _, _ => by simp [ConfS]
+  | .delay s n, h => by
+    simp only [LayOk] at h
+    simp [ConfS, SNode.ringAt, lookup_empty, Ring.zero]
+  | .child s self cells, h => by
+    simp only [LayOk] at h
+    simp only [ConfS, childAt_empty']
+    refine ⟨?_, confSL_empty cells h⟩
+    cases self with
+    | none => simp [SelfOkS, SNode.empty, SNode.selfv]
+    | some sh => intro v hv; simp [SNode.empty, SNode.selfv] at hv
+theorem confSL_empty : ∀ (cs : List LCell), LayOkL cs → ConfSL cs SNode.empty
+  | [], _ => by simp [ConfSL]
+  | c :: cs, h => by
+    simp only [LayOkL] at h
+    simp only [ConfSL]
+    exact ⟨confS_empty c h.1, confSL_empty cs h.2.2⟩
+end
+
+/-- words no patch covers are zero after the VM's migration, whichever branch `new_resume` takes -/
+theorem vmResume_uncovered (o n : Sk) (old : List Nat) (hlen : old.length = o.size) (dstOff size : Nat)
+    (hb : dstOff + size ≤ n.size)
+    (h : ∀ p ∈ planPatches o n, ∀ k, k < size → ¬ p.covers (dstOff + k)) :
+    ∃ ws, vmResume o n old = some ws ∧ ws.length = n.size ∧ ∀ k, k < size → ws.getD (dstOff + k) 0 = 0 := by
+  cases hbp : buildPlan o n with
+  | none =>
+    have hm : o.matches n = true := by
+      unfold buildPlan at hbp
+      split at hbp
+      · assumption
+      · simp at hbp
+    refine ⟨old, by simp [vmResume, hbp], by rw [hlen, matches_size o n hm], fun k hk => ?_⟩
+    exfalso
+    refine h ⟨0, 0, n.size⟩ (by simp [planPatches, hbp]) k hk ?_
+    simp only [Patch.covers]; omega
+  | some plan =>
+    have hplan : plan = ⟨n.size, takeDiff o n⟩ := by
+      unfold buildPlan at hbp
+      split at hbp
+      · simp at hbp
+      · simpa using hbp.symm
+    obtain ⟨ws, hws, hl⟩ := C08_apply_total o n old hlen plan hbp
+    refine ⟨ws, by simp [vmResume, hbp, hws], hl, fun k hk => ?_⟩
+    have hws' : ws = applyPatches old (List.replicate n.size 0) (takeDiff o n) := by
+      subst hplan
+      unfold applyPlan? at hws
+      split at hws
+      · simpa using hws.symm
+      · simp at hws
+    rw [hws']
+    refine C08_others_zero o n old (dstOff + k) (by omega) (fun p hp => h p ?_ k hk)
+    simp [planPatches, hbp, hplan, hp]
+
+theorem slice_zero (ws : List Nat) (dstOff size : Nat) (h1 : dstOff + size ≤ ws.length)
+    (h : ∀ k, k < size → ws.getD (dstOff + k) 0 = 0) :
+    ((natToWords ws).drop dstOff).take size = List.replicate size 0 := by
+  apply List.ext_getElem
+  · simp [natToWords]; omega
+  · intro k hk1 hk2
+    have hk : k < size := by simpa using hk2
+    have := h k hk
+    simp only [List.getD_eq_getElem?_getD] at this
+    rw [List.getElem?_eq_getElem (by omega)] at this
+    simp only [Option.getD_some] at this
+    simp only [List.getElem_take, List.getElem_drop, natToWords, List.getElem_map, this, List.getElem_replicate]
+    rfl
+
+/-- **a child that receives no word starts from zero.**  If no patch of the plan the runtimes apply touches the word range
+of the child cell `sj` of the new layout, the migration succeeds on the flat image of every conforming tree, and the child
+`sj` of the tree read back has the flat words of a never-evaluated instance -/
+theorem swapWords_fresh_child (lo ln : LNode) (hln : ln.Ok) (preN postN : List LCell) (sj : Nat)
+    (self : Option Shape) (cells : List LCell) (hcn : ln.cells = preN ++ .child sj self cells :: postN)
+    (st : SNode) (hconf : Conforms lo st)
+    (hnone : ∀ p ∈ planPatches (publishedSk lo) (publishedSk ln), ∀ k, k < LNode.size ⟨self, cells⟩ →
+      ¬ p.covers (selfSize ln.self + sizeCells preN + k)) :
+    ∃ ws, swapWords lo ln st = some ws ∧ ws.length = ln.size ∧ Canon ln (deserialize ln ws) ∧
+      serialize ⟨self, cells⟩ ((deserialize ln ws).childAt sj) = serialize ⟨self, cells⟩ SNode.empty := by
+  have hsz' : (LCell.child sj self cells).size = LNode.size ⟨self, cells⟩ := by simp [LCell.size, LNode.size]
+  have hlen := serialize_length lo st hconf
+  have hsn := lnode_size_split ln preN postN _ hcn
+  obtain ⟨ws, hws, hwl, hwk⟩ := vmResume_uncovered (publishedSk lo) (publishedSk ln) (wordsToNat (serialize lo st))
+    (by rw [wordsToNat_length, hlen, publishedSk_size]) _ _ (by rw [publishedSk_size, hsn, hsz']; omega) hnone
+  rw [publishedSk_size] at hwl
+  have hr := serialize_deserialize ln (natToWords ws) hln (by simp [natToWords, hwl])
+  refine ⟨natToWords ws, by simp [swapWords, hws], by simp [natToWords, hwl], hr.2, ?_⟩
+  have hc' : Conforms ln (deserialize ln (natToWords ws)) := canon_conforms ln _ hln hr.2
+  have e1 := serialize_slice ln preN postN _ hcn _ hc'
+  rw [hr.1, hsz', serCell_child] at e1
+  rw [← e1, serialize_empty]
+  exact slice_zero ws _ _ (by rw [hwl, hsn, hsz']; omega) hwk
+
+end Mimium.LiveCoding
